@@ -249,7 +249,9 @@ def main(mod, argv):
 
     # 1. translators
     try:
-        changed = mod.translate(ctx)
+        import gen_all
+        changed = gen_all.generate_all()      # every Gen/*.lean follows /repo on every run
+        changed += [c for c in mod.translate(ctx) if c not in changed]
         proof_info['regenerated'] = changed
     except Exception as e:  # translator met something it does not understand
         broken.append(dict(kind='translator', detail='{}: {}'.format(type(e).__name__, e)))
